@@ -27,7 +27,7 @@ EXPLANATION = (
     "Termination: on fully symbolic multipart bodies the driving loop finishes within a step budget with parts or an "
     "error. base64: concrete content, solver-chosen slicing of the writes.")
 ASSUMPTIONS = [
-    "part bodies do not contain CRLF + '--' + boundary and do not begin with '--' + boundary (multipart requires the boundary not to occur in the content); asserted as a solver assumption before the code runs",
+    "part bodies do not contain CRLF + '--' + boundary and do not begin with '--' + boundary (multipart requires the boundary not to occur in the content); asserted as a solver assumption before the code runs; for the readline API the delimiter must not be the prefix of any LF-terminated line (RFC 2046 5.1.1: not 'the prefix of any line')",
     "gzip/deflate part encodings (zlib) and base64/quoted-printable (binascii) are FFI: they run natively on concrete contents chosen by the solver (8 contents incl. CRLF, '=', trailing blanks, 8-bit bytes, a delimiter look-alike) in the codec-parts job, with nesting on/off and one cut; base64 additionally with solver-chosen write slicing",
     "header block of the enclosing message is a plain dict {'Content-Type': 'multipart/...; boundary=b'}",
     "multidict.CIMultiDict replaced by SymCIMultiDict inside HeadersParser while part header names may be symbolic (termination runs)",
@@ -76,9 +76,10 @@ class _Proto:
         self._reading_paused = False
 
 
-def _no_delim(ctx, body, boundary):
-    """assume the multipart precondition on a part body"""
-    delim = b"\r\n--" + boundary
+def _no_delim(ctx, body, boundary, lines=False):
+    """assume the multipart precondition on a part body.  lines: for the line-oriented API the
+    delimiter must not be the prefix of any line, a line being what readline() returns (LF-terminated)"""
+    delim = (b"\n--" if lines else b"\r\n--") + boundary
     n, m = len(body), len(delim)
     conds = []
     bb = body.b if hasattr(body, "b") else tuple(body)
@@ -107,6 +108,12 @@ async def _read_parts(reader, api, chunk_size):
             data = b""
             while not part.at_eof():
                 data = data + await part.read_chunk(chunk_size)
+        elif api == "lines":
+            data = b""
+            for _ in range(64):
+                if part.at_eof():
+                    break
+                data = data + await part.readline()
         elif api == "release":
             await part.release()
             data = None
@@ -129,7 +136,7 @@ def roundtrip(ctx, nparts=1, maxlen=3, subtype="form-data", boundary="b", ncuts=
         n = ctx.choice(f"len{i}", maxlen + 1)
         body = ctx.bytes(f"b{i}", n, DOM) if n else b""
         if n:
-            _no_delim(ctx, body, boundary)
+            _no_delim(ctx, body, boundary, lines=list(apis) == ["lines"])
         bodies.append(body)
         p = payload.BytesPayload(body)
         if subtype == "form-data":
@@ -434,7 +441,7 @@ def jobs(tier):
     lim = {"time_limit": 110 if quick else 1800}
     out = []
     for sub in ("form-data", "mixed"):
-        for api in ("read", "chunks", "release"):
+        for api in ("read", "chunks", "lines", "release"):
             out.append(dict(name=f"rt1-{sub}-{api}", func="roundtrip",
                             params=dict(nparts=1, maxlen=4 if quick else 6, subtype=sub, ncuts=1, apis=[api]), limits=lim))
         out.append(dict(name=f"rt2-{sub}", func="roundtrip",
@@ -458,7 +465,7 @@ REQUIRED_OUTCOMES = ("form-data:read:1", "mixed:chunks:1", "parts", "raise", "b6
 
 
 def bounds(tier):
-    return {"roundtrip": "1 part of 0..4 (quick) / 0..6 symbolic bytes, 2 parts of 0..2 / 0..3, over {CR LF - b x}, boundary 'b', subtypes form-data (boundary scan) and mixed (Content-Length), 1-2 symbolic cuts of the wire, APIs read / read_chunk(5..7) / release",
+    return {"roundtrip": "1 part of 0..4 (quick) / 0..6 symbolic bytes, 2 parts of 0..2 / 0..3, over {CR LF - b x}, boundary 'b', subtypes form-data (boundary scan) and mixed (Content-Length), 1-2 symbolic cuts of the wire, APIs read / read_chunk(5..7) / readline loop / release",
             "termination": "'--b CRLF' + 3..5 (quick) / 3..7 symbolic bytes over {CR LF - b : x}; raw 5 / 7 symbolic bytes; loop budget 6000 callbacks",
             "codec_parts": "Content-Transfer-Encoding in {none, base64, quoted-printable, binary} x Content-Encoding in {none, gzip, deflate} x 8 concrete contents x nested / flat x 7 cut positions: read(decode=True) returns the content", "formdata": "FormData(default_to_multipart) with field name and filename from 8 strings (ASCII, Latin-1, non-BMP-free Unicode, space, quote, semicolon, backslash, percent), quote_fields on/off, charset None/utf-8, bytes or text content, one cut: size == bytes written; names come back verbatim or percent-decoded", "base64": "concrete contents of 5, 7 (and 10) bytes, every slicing into up to 4 (5) writes"}
 
